@@ -126,3 +126,26 @@ package upstream
 //@ prop C19 C17
 //@ ensures[nonnil:a-reverse-proxy] result != nil
 //@ ensures[single-host-proxy-to-the-target] result == ret(httputil.NewSingleHostReverseProxy) && arg(httputil.NewSingleHostReverseProxy, 0) == target
+
+// ------------------------------------------------------------------ C19 / C17: a static upstream answers with the configured status code, which
+// validation confined to what net/http accepts (WriteHeader panics outside 100..999); 200 when none is configured
+//@ stable staticResponseHandler.*
+//@ func newStaticResponseHandler
+//@ safety
+//@ nilable code
+//@ prop C19 C17
+//@ ensures[the-configured-code-or-200] typeis(result, "*staticResponseHandler") && as(result, "*staticResponseHandler").upstream == upstream
+//@     && as(result, "*staticResponseHandler").code == ite(code == nil, 200, old(deref(code)))
+
+//@ func derefStaticCode
+//@ safety
+//@ nomod
+//@ nilable code
+//@ prop C19 C17
+//@ ensures[the-configured-code-or-200] result == ite(code == nil, 200, deref(code))
+
+//@ func (*staticResponseHandler).ServeHTTP
+//@ prop C19 C17
+//@ requires[config:static-code-is-a-status-code] 100 <= s.code && s.code <= 999
+//@ at call WriteHeader assert[answers-with-the-configured-code] arg(WriteHeader, 0) == s.code
+
